@@ -497,9 +497,19 @@ def check_summary(ctx, prog, accepted, R, T):
 
 def check(ctx):
     prog = ctx.prog("posix-mt")
-    accepted, R, T, I = check_redirect(ctx, prog)
+    F = prog.fn("parse_redirect")
+    have = {x["name"] for x in F.params}
+    accepted = None
+    if {"redirect", "stream", "parent", "discard", "file", "path"} <= have:
+        accepted, R, T, I = check_redirect(ctx, prog)
+    else:
+        # the per-stream helper has another interface: its table cannot be evaluated in isolation.  The whole-validator runs below
+        # (which do not depend on the helper's signature) still decide; if they find nothing there is no verdict (exit 2).
+        ctx.floor_failures.append("C13.A2: parse_redirect no longer takes (redirect, stream, parent, discard, file, path); the per-stream "
+                                  "table and the parse_options summary check (C13.S) were not evaluated")
     check_streams_composition(ctx, prog)
     check_parse_options(ctx, prog, accepted)
     check_purity(ctx, prog)
     check_order(ctx, prog)
-    check_summary(ctx, prog, accepted, R, T)
+    if accepted is not None:
+        check_summary(ctx, prog, accepted, R, T)
